@@ -402,6 +402,7 @@ func runC14(c *Check) {
 	}
 	c14Supported(c, allCases)
 	c14Bundles(c, ns)
+	c14ModuleLevel(c, ns)
 }
 
 func init() { register("C14", "exploration", runC14) }
